@@ -68,6 +68,11 @@ fn pool(seed: u64, n: usize) -> Vec<Cfg> {
                 c.flop = [free[pick[0]], free[pick[1]], free[pick[2]]];
             }
         }
+        if i % 20 == 8 {
+            // a player without any hand (an empty range, or notation that parses to nothing): an evaluator that yields nothing,
+            // polled among the others
+            c.ranges.push(vec![]);
+        }
         v.push(c.clone());
         if i % 4 == 1 && v.len() < n {
             // the same combos seat by seat with other weights, right after the original: only probability() tells them apart
